@@ -16,6 +16,11 @@ repo) into their own clause and their messages start with `is_html-heuristic:`, 
 every other failure.  Two further families are separated the same way: `is_html-unquoted-value:` (a left-context tag that
 ends with an unquoted attribute value, `<a href=x>#id>a`) and `comma-in-function:` (stylesheet functions with several
 arguments, `lg(t,#f)`: the comma is not an abbreviation character for extract).
+
+Clause family 3 (free text, added after seeds C11-A3/B3 were missed): `roundtrip-markup-attr-text` - abbreviations whose
+attribute values hold free text around balanced (..)/{..} pairs; `roundtrip-after-tag-quoted-text` - left contexts that
+are start tags with free-text quoted attribute values (other quote kind, `<>=`, brackets) followed by more attributes.
+Same oracle (check_roundtrip), generators in c11_gen.
 """
 import itertools
 import random
@@ -133,6 +138,21 @@ def _embed(syntax, abbrs, ctxs, family):
                 yield (syntax, left, prefix, a, right)
 
 
+def _after_tags(tags, quick):
+    """round-trip cases whose left context ends with one of the given complete HTML tags"""
+    ma, ca = c11_gen.TAG_ABBRS, c11_gen.TAG_CSS_ABBRS
+    wraps = [('', ''), ('text ', '</p>'), ('<li>', ' text'), ('</b> ', ''), ('a<b ', ']'), ('<p class="x">', '')]
+    for i, tag in enumerate(tags):
+        picked = [ma[(i + 3 * k) % len(ma)] for k in range(3)] if quick else ma
+        cases = [('markup', a) for a in picked] + [('stylesheet', ca[i % len(ca)])]
+        for j, (syntax, a) in enumerate(cases):
+            for k in range(3):            # the bare tag at the end of the line and two of the other surroundings
+                before, right = wraps[1 + (i + j + 2 * k) % (len(wraps) - 1)] if k else wraps[0]
+                left = before + tag
+                if _family(syntax, left, a) == 'roundtrip':
+                    yield (syntax, left, '', a, right)
+
+
 def run(tier, seed):
     quick = tier == 'quick'
     ll, nl, nrand, maxel = (4, 5, 3000, 6) if quick else (5, 6, 10000, 8)
@@ -204,5 +224,39 @@ def run(tier, seed):
     c = Clause('roundtrip-stylesheet-function-args', 'B', 'stylesheet abbreviations whose value is a function call with several '
                'comma-separated arguments', '%d abbreviations x %s' % (len(fn), ctx), rule, exhaustive=True)
     run_parallel(c, 'bounded.c11', 'check_roundtrip', _embed('stylesheet', fn, ctxs, 'comma-in-function'), chunk=1000)
+    out.append(c.done())
+
+    # free text with balanced brackets inside an attribute list (seed C11-A3 was missed without it)
+    attr = c11_gen.attr_text_abbreviations(tier)
+    actxs = [t for t in ctxs if not quick or t[2] == '' or t[0] == '']     # quick: every left, every right, not their product
+    attr_rnd = c11_gen.random_attr_abbreviations(rng, 300 if quick else 3000)
+    known = set(attr)
+    attr_rnd = [a for a in attr_rnd if a not in known]
+    c = Clause('roundtrip-markup-attr-text', 'B',
+               'c11_gen.attr_text_abbreviations(): elements with an attribute value (double-quoted, single-quoted, unquoted) '
+               'holding free text around one balanced (..) or {..} pair: %d inner texts x %d prefixes x %d suffixes; %d attribute-list '
+               'forms, %d names, the element alone and in %s of %d templates; + seeded random quoted values with brackets nested '
+               '<= 2; tag look-alikes dropped' % (
+                   len(c11_gen.ATTR_INNER), len(c11_gen.ATTR_PRE), len(c11_gen.ATTR_POST), len(c11_gen.ATTR_FORMS),
+                   len(c11_gen.ATTR_NAMES), '1' if quick else 'all', len(c11_gen.ATTR_TEMPLATES) - 1),
+               '%d + %d random (seed %d) abbreviations x %d of the %s' % (len(attr), len(attr_rnd), seed, len(actxs), ctx), rule,
+               exhaustive=False)
+    run_parallel(c, 'bounded.c11', 'check_roundtrip', _embed('markup', attr + attr_rnd, actxs, 'roundtrip'), chunk=1000)
+    out.append(c.done())
+
+    # left contexts: complete HTML tags whose quoted attribute values hold free text (seed C11-B3 was missed without it)
+    tags = c11_gen.html_tags()
+    tags_rnd = [c11_gen.random_html_tag(rng) for _ in range(600 if quick else 6000)]
+    c = Clause('roundtrip-after-tag-quoted-text', 'B',
+               'c11_gen.html_tags(): start tags `<name [attributes] attr=QUOTED [remainder]>`: %d value texts (the other quote '
+               'kind, `<`, `>`, `=`, brackets, `/`, attribute look-alikes) in both quote kinds x %d preceding attribute lists x %d '
+               'remainders (nothing, boolean / unquoted / quoted attributes, self-closing slash, extra white space); + seeded '
+               'random start tags (1..4 attributes, random quoted values); each tag alone, after `text ` and after another tag, '
+               'before end of line / ` text` / `</p>`, markup and stylesheet abbreviations; tag look-alikes dropped' % (
+                   len(c11_gen.TAG_VALUES), len(c11_gen.TAG_PRE), len(c11_gen.TAG_POST)),
+               '%d + %d random (seed %d) tags x %d of %d markup and 1 of %d stylesheet abbreviations x 3 (left, right) pairs, lookAhead '
+               'on/off' % (len(tags), len(tags_rnd), seed, 3 if quick else len(c11_gen.TAG_ABBRS), len(c11_gen.TAG_ABBRS),
+                           len(c11_gen.TAG_CSS_ABBRS)), rule, exhaustive=False)
+    run_parallel(c, 'bounded.c11', 'check_roundtrip', _after_tags(tags + tags_rnd, quick), chunk=1000)
     out.append(c.done())
     return out
